@@ -17,8 +17,9 @@ Parts (all deciding steps are complete enumerations of the stated spaces):
   T  every method: baseline run records which objects are actually hashed; EVERY transposition (i j) of the
      default assignment restricted to those objects is run (deviation bound 1; bound 2 = every unordered pair of
      distinct transpositions for methods with <= T2_MAX hashed objects, thorough only).
-  S  the corpus is re-run in child processes with PYTHONHASHSEED = 0..7 (thorough 0..31), compared with the
-     in-process run (runner pins PYTHONHASHSEED=0).
+  S  the whole corpus is re-run (default assignment, so identity order is pinned and only str hashing varies) in
+     child processes with PYTHONHASHSEED = 1..7 (thorough 1..31) and compared with the in-process run (the runner
+     pins PYTHONHASHSEED=0).
   H  history (B must get the text it gets when decompiled alone in a fresh process): ~60 method corpus.
      chains: for every A a fresh process and freshly parsed DEX + Analysis, then A B1 A B2 A B3 ...: every ordered
      pair (A,B) and (B,A) occurs adjacently (histories share the objects, as DvMachine/DecompilerDAD users do);
@@ -76,12 +77,11 @@ DEXES = ["Test.dex", "AnalysisTest.dex", "ExceptionHandling.dex", "FillArrays.de
          "StringTests.dex", "FieldsTest.dex", "classes.dex", "Annotation_classes.dex", "hello-world.apk"]
 HIST_DEXES = DEXES[:8]            # history corpus is drawn from the small files and classes.dex
 M24 = (1 << 24) - 1
-T_MAX_QUICK = 24                  # quick: transpositions for methods with <= this many hashed objects
-T_MAX_THOROUGH = 64
+T_MAX_QUICK = 16                  # quick: transpositions for methods with <= this many hashed objects
+T_MAX_THOROUGH = 48
 T2_MAX = 12                       # thorough: pairs of transpositions up to this many hashed objects
 G_SLICE = 700                     # methods per G shard
 T_SLICE = 350
-S_SLICE = 2500
 
 
 # ------------------------------------------------------------------ hash ownership
@@ -388,6 +388,8 @@ def _child_main():
             out[name] = [len(c.get_methods()) for c in dex.DEX(raw).get_classes()]
     elif op == "slice":
         out = child_slice(repo, job["dex"], job.get("lo"), job.get("hi"), job.get("texts", False), job.get("only"))
+    elif op == "slices":
+        out = [child_slice(repo, name, lo, hi) for name, lo, hi in job["items"]]
     elif op == "eval":
         out = eval_witness(repo, job["w"])
     elif op == "hist":
@@ -675,21 +677,30 @@ def space(ctx):
 def shards(ctx):
     sizes = all_sizes(ctx.repo)
     out = []
+    big = [n for n in DEXES if sum(sizes[n]) > 1000]
+    # heaviest shards first (T on the big files), so that the pool packs well
+    for name in big + [n for n in DEXES if n not in big]:
+        for lo, hi in slices(sizes[name], T_SLICE):
+            out.append(("T", name, lo, hi))
+    # S: one child per (part, seed); a part is half of a big file (the child has to parse the file) or all small files
+    sd = seeds(ctx)
+    parts = [[(n, 0, len(sizes[n])) for n in DEXES if n not in big]]
+    for name in big:
+        total, half, k = sum(sizes[name]), 0, 0
+        while k < len(sizes[name]) and (half < total // 2 or total < 5000):
+            half += sizes[name][k]
+            k += 1
+        parts += [[(name, 0, k)]] + ([[(name, k, len(sizes[name]))]] if k < len(sizes[name]) else [])
+    for g in range(0, len(sd), 2):
+        for part in parts:
+            out.append(("S", part, sd[g:g + 2]))
     for name in DEXES:
         for lo, hi in slices(sizes[name], G_SLICE):
             out.append(("G", name, lo, hi))
-    for name in DEXES:
-        for lo, hi in slices(sizes[name], T_SLICE):
-            out.append(("T", name, lo, hi))
-    sd = seeds(ctx)
-    for name in DEXES:
-        for lo, hi in slices(sizes[name], S_SLICE):
-            for g in range(0, len(sd), 4):
-                out.append(("S", name, lo, hi, sd[g:g + 4]))
     hc = _hcorpus(ctx.repo)
     n = len(hc["corpus"])
-    for a in range(0, n, 2):
-        out.append(("H", a, min(a + 2, n)))                  # chains: A B1 A B2 ... on objects fresh per A
+    for a in range(0, n, 4):
+        out.append(("H", a, min(a + 4, n)))                  # chains: A B1 A B2 ... on objects fresh per A
     small = [i for i, x in enumerate(hc["corpus"]) if x[4] == "small"]
     if ctx.thorough:
         for a in range(n):
@@ -699,7 +710,6 @@ def shards(ctx):
     else:
         for g in range(0, len(small), 6):
             out.append(("HX", small[g:g + 6], small))
-    # interleave kinds so that long and short shards mix, deterministically
     return out
 
 
@@ -730,7 +740,7 @@ def run_shard(ctx, shard):
     elif kind == "T":
         _run_T(ctx, acc, cands, *shard[1:])
     elif kind == "S":
-        _run_S(ctx, acc, cands, *shard[1:])
+        _run_S(ctx, acc, cands, shard[1], shard[2])
     elif kind == "H":
         _run_H(ctx, acc, cands, shard[1], shard[2])
     elif kind == "HX":
@@ -842,39 +852,43 @@ def _run_T(ctx, acc, cands, name, lo, hi):
                             "transpositions": len(swaps), "first": specs[0], "last": specs[-1]})
 
 
-def _run_S(ctx, acc, cands, name, lo, hi, sds):
-    d, dx, _ = load(ctx.repo, name)
-    classes = d.get_classes()
-    base = child_slice(ctx.repo, name, lo, hi)          # in-process, PYTHONHASHSEED=0 (pinned by run_check.py)
-    nm = sum(len(x) for x in base["m"])
+def _run_S(ctx, acc, cands, part, sds):
+    # in-process reference: PYTHONHASHSEED=0 is pinned by run_check.py (otherwise the parent is just one more seed)
+    if os.environ.get("PYTHONHASHSEED") != "0":
+        acc.note("parent process did not run with PYTHONHASHSEED=0")
+    base = [child_slice(ctx.repo, name, lo, hi) for name, lo, hi in part]
+    nm = sum(len(x) for bs in base for x in bs["m"])
     acc.transitions += nm
     acc.traces += 1
     for s in sds:
-        got = _run_child(ctx.repo, {"op": "slice", "dex": name, "lo": lo, "hi": hi}, seed=str(s))
+        got = _run_child(ctx.repo, {"op": "slices", "items": part}, seed=str(s))
         acc.count("hashseed_runs")
         acc.transitions += nm
         acc.traces += 1
         acc.n += nm
         acc.nt_disjoint += nm
-        bad = [lo + k for k in range(hi - lo) if got["m"][k] != base["m"][k] or got["c"][k] != base["c"][k]]
-        if not bad:
-            continue
-        tb = child_slice(ctx.repo, name, None, None, True, bad)
-        tg = _run_child(ctx.repo, {"op": "slice", "dex": name, "texts": True, "only": bad}, seed=str(s))
-        for x, ci in enumerate(bad):
-            c = classes[ci]
-            diffs = [i for i in range(len(tb["m"][x])) if tg["m"][x][i] != tb["m"][x][i]]
-            w = {"kind": "seed", "dex": name, "class": ci, "seed": s, "method": diffs[0] if diffs else None}
-            a, b = (tb["m"][x][diffs[0]], tg["m"][x][diffs[0]]) if diffs else (tb["c"][x], tg["c"][x])
-            acc.state((name, str(c.get_name()), w["method"], th(b)))
-            if a != b:
-                _viol(acc, cands, "hashseed", name, w, a, b,
-                      mid(c, diffs[0], c.get_methods()[diffs[0]]) if diffs else str(c.get_name()),
-                      "PYTHONHASHSEED=%d vs 0" % s)
-            else:
-                acc.harness_error("hash-seed difference for %s class %d seed %d vanished on re-evaluation" % (name, ci, s))
-    if lo == 0:
-        acc.sample({"part": "S", "dex": name, "classes": [lo, hi], "seeds": [0] + list(sds), "methods": nm})
+        for (name, lo, hi), bs, gs in zip(part, base, got):
+            bad = [lo + k for k in range(hi - lo) if gs["m"][k] != bs["m"][k] or gs["c"][k] != bs["c"][k]]
+            if not bad:
+                continue
+            classes = load(ctx.repo, name)[0].get_classes()
+            tb = child_slice(ctx.repo, name, None, None, True, bad)
+            tg = _run_child(ctx.repo, {"op": "slice", "dex": name, "texts": True, "only": bad}, seed=str(s))
+            for x, ci in enumerate(bad):
+                c = classes[ci]
+                diffs = [i for i in range(len(tb["m"][x])) if tg["m"][x][i] != tb["m"][x][i]]
+                w = {"kind": "seed", "dex": name, "class": ci, "seed": s, "method": diffs[0] if diffs else None}
+                a, b = (tb["m"][x][diffs[0]], tg["m"][x][diffs[0]]) if diffs else (tb["c"][x], tg["c"][x])
+                acc.state((name, str(c.get_name()), w["method"], th(b)))
+                if a != b:
+                    _viol(acc, cands, "hashseed", name, w, a, b,
+                          mid(c, diffs[0], c.get_methods()[diffs[0]]) if diffs else str(c.get_name()),
+                          "PYTHONHASHSEED=%d vs 0" % s)
+                else:
+                    acc.harness_error("hash-seed difference for %s class %d seed %d vanished on re-evaluation"
+                                      % (name, ci, s))
+    if part[0][1] == 0:
+        acc.sample({"part": "S", "files": [x[0] for x in part], "seeds": [0] + list(sds), "methods": nm})
 
 
 def _hist_run(ctx, acc, cands, seqs, kind):
@@ -969,6 +983,8 @@ def finalize(ctx, acc):
     if len(orders) < 6:
         acc.harness_error("hash assignments do not permute set iteration order (only %d orders on the toy set)" % len(orders))
     e = acc.extra
+    e["hashseeds"] = len(seeds(ctx)) + 1
+    e["deviation_bound"] = 2 if ctx.thorough else 1
     if e.get("methods_with_hashed_objects", 0) < 100:
         acc.harness_error("degenerate: only %d methods hash >= 2 owned objects" % e.get("methods_with_hashed_objects", 0))
     if e.get("transpositions", 0) < 1000 or e.get("hashseed_runs", 0) < 7 or e.get("history_pairs_adjacent_in_chain", 0) < 2500 or e.get("history_pairs_exact", 0) < 400:
